@@ -13,7 +13,7 @@ from .ctx import Ctx, Undecided, PathEnd, Signal, PyExc, Ret
 from .interp import Interp, ModuleIndex, Frame, mk, truth, as_bytes_term, as_str_term, py_exc
 from .models import Models
 from . import models as M
-from .values import (SV, Ref, Rope, SymSeq, Ext, ExcVal, BigInt, Closure, BoundMethod, ValMethod, Opaque, OptV,
+from .values import (SV, Ref, Rope, SymSeq, Ext, ExcVal, BigInt, Closure, BoundMethod, ValMethod, Opaque, OptV, IteV,
                      z, tag_of, concrete)
 
 PKG = "websocket"
@@ -59,6 +59,7 @@ class Engine:
         self.current_target = None
         self.str_to_int_hook = None
         self.after_call = {}  # (caller qualname, callee name) -> ghost statement fn(c, frame, result)
+        self.lazy_ext_kinds = set()  # external kinds whose methods only record their (lazily optional) arguments
         self.split_hooks = {}  # function qualname -> model of str.split inside that function
         self.cut_calls = {}  # (caller qualname, callee qualname) -> extra requires; the path ends after the call's requires
 
@@ -111,8 +112,10 @@ class Engine:
     def _dispatch_call(self, c, fn, args, kwargs, node):
         I = self.interp
         fn = c.force(fn)
-        args = [c.force(x) for x in args]
-        kwargs = {k: (c.force(v) if k != "$starstar" else v) for k, v in kwargs.items()}
+        lazy = isinstance(fn, BoundMethod) and isinstance(fn.func, str) and isinstance(fn.self_, Ext) and fn.self_.kind in self.lazy_ext_kinds
+        if not lazy:
+            args = [c.force(x) for x in args]
+            kwargs = {k: (c.force(v) if k != "$starstar" else v) for k, v in kwargs.items()}
         if isinstance(fn, Closure):
             key = f"{fn.frame.module.__name__}:{fn.qual}"
             ct = self.contracts.get(key)
@@ -436,6 +439,8 @@ class Engine:
                     raise py_exc(KeyError, k)
                 return default
             p, v = ent
+            if name == "get" and p is not True:
+                return IteV(p, v, default)  # decided only when the value is inspected
             if p is True or c.branch(p):
                 if name == "pop":
                     del d[k]
@@ -455,8 +460,13 @@ class Engine:
             o = args[0]
             if isinstance(o, Ref) and c.cell(o).kind == "dict":
                 for k, (p, v) in list(c.cell(o).data.items()):
-                    if p is True or c.branch(p):
+                    if p is True:
                         d[k] = (True, v)
+                    elif k in d:
+                        p0, v0 = d[k]
+                        d[k] = (z3.Or(p, p0) if p0 is not True else True, IteV(p, v, v0))
+                    else:
+                        d[k] = (p, v)
                 return None
         if name == "setdefault":
             ok, k = concrete(args[0])
